@@ -2,6 +2,7 @@
 import Driver.PathFam
 import Driver.ForestFam
 import Driver.Level2Fam
+import Driver.KernFam
 
 open Driver
 
@@ -19,6 +20,7 @@ def stepLine (st : St) (line : String) : St × String :=
     let (p, out) := ForestFam.step st.forest (line.drop 7).toString
     ({ st with forest := p }, out)
   | "level2" :: _ => (st, Level2Fam.step (line.drop 7).toString)
+  | "kern" :: _ => (st, KernFam.step (line.drop 5).toString)
   | _ => (st, "bad-family")
 
 partial def loop (h : IO.FS.Stream) (out : IO.FS.Stream) (st : St) : IO Unit := do
